@@ -862,8 +862,16 @@ func (c *Client) peekPacket() (head byte, err error) {
 		}
 
 		lastN := len(c.peek)
-		c.peek, err = c.bufr.Peek(size)
+		// Peek beyond the buffer size gives ErrBufferFull regardless
+		// of the amount read, while read errors stay pending.
+		peekN := size
+		if head>>4 == typePUBLISH && peekN > c.bufr.Size() {
+			peekN = c.bufr.Size()
+		}
+		c.peek, err = c.bufr.Peek(peekN)
 		switch {
+		case err == nil && peekN < size:
+			return head, &BigMessage{Client: c, Size: size}
 		case err == nil: // OK
 			return head, err
 		case head>>4 == typePUBLISH && errors.Is(err, bufio.ErrBufferFull):
